@@ -117,6 +117,7 @@ def check_property(prop: str, tier: str, seed: int) -> int:
         except ExtractError as e:
             undecided.append("%s: %s" % (tpl, e))
             continue
+        undecided += ["%s: %s" % (tpl, x) for x in getattr(asm, "skipped", [])]
         out = os.path.join(gen, tpl.replace(".rs.in", ".rs"))
         r = run_verus(asm, out, rlimit=int(cfg.get("rlimit", 40)))
         checker_cmds.append(r.cmd)
